@@ -529,6 +529,11 @@ func (ri *reflectInspector) recursivelyRecordUsedForReflectImpl(t types.Type, vi
 		if obj.Pkg() == nil {
 			return
 		}
+		// Type arguments are part of an instantiated type's name, e.g. Box[pkg.Arg],
+		// and they differ between instances of the same generic type.
+		for i := range t.TypeArgs().Len() {
+			ri.recursivelyRecordUsedForReflectImpl(t.TypeArgs().At(i), visited)
+		}
 		if ri.usedForReflect(obj) {
 			return // prevent endless recursion
 		}
@@ -547,6 +552,20 @@ func (ri *reflectInspector) recursivelyRecordUsedForReflectImpl(t types.Type, vi
 				ri.recordUsedForReflect(originField, t)
 			}
 			ri.recursivelyRecordUsedForReflectImpl(field.Type(), visited)
+		}
+
+	case *types.Map:
+		// Map keys are reachable via reflection just like map elements.
+		ri.recursivelyRecordUsedForReflectImpl(t.Key(), visited)
+		ri.recursivelyRecordUsedForReflectImpl(t.Elem(), visited)
+
+	case *types.Signature:
+		ri.recursivelyRecordUsedForReflectImpl(t.Params(), visited)
+		ri.recursivelyRecordUsedForReflectImpl(t.Results(), visited)
+
+	case *types.Tuple:
+		for i := range t.Len() {
+			ri.recursivelyRecordUsedForReflectImpl(t.At(i).Type(), visited)
 		}
 
 	case interface{ Elem() types.Type }:
